@@ -193,7 +193,7 @@ class _NumericOperationsImpl(OperationsBlock):
 
     @validate_core
     def isfinite(self, x):
-        return self.logical_not(self.isinf(x))
+        return ndx.logical_not(ndx.logical_or(self.isinf(x), self.isnan(x)))
 
     @validate_core
     def isinf(self, x):
